@@ -147,7 +147,7 @@ class EnvHist(Engine):
         "script = world (2-level type hierarchy, 4-6 fluents, free parameters, 0-2 interpreted functions) + pool of "
         "6-12 expressions that share sub-expressions + 15-40 walker calls on ONE Environment (simplify, "
         "Simplifier(problem).simplify, substitute, type, free-vars extractor/oracle, names, interpreted-function "
-        "extractor, quantifier removal over one of two objects sets, construction, kind computation of a problem with the expression as goal), some failing by themselves (ill-typed construction, division by "
+        "extractor, quantifier removal over one of three objects sets (two of them of equal size), construction, kind computation of a problem with the expression as goal), some failing by themselves (ill-typed construction, division by "
         "a zero constant inside the walk, incompatible map, subtype-eliminating Exists), some hit by an injected "
         "callback failure or by MemoryError at a chosen line event; each unfaulted call is compared with the same call "
         "in a fresh Environment. non-trivial = a failure happened inside a library call (fired injected fault, or a "
